@@ -5,7 +5,7 @@ import random
 from . import common
 
 TRUSTED = ["C13 predicate check_c13 (Model/Checks.v): blank-iff-repeat rule stated on key tuples, independent of the model's GroupBy port"]
-ASSUMPTIONS = ["group values are plain strings or null; key values do not contain '|' (the implementation's string key join)"]
+ASSUMPTIONS = ["group values are plain strings or null"]
 
 ALPHA = ["@A", "@B", "@C", None]
 
